@@ -242,6 +242,114 @@ def _roundtrip(args):
     return dict(violations=_dedup(out), counts=counts)
 
 
+def _attr_replacement(args):
+    """Betfair: the exchange reports a bet that carries a known order's reference under a bet id no local order
+    has (the replacement bet seen before the replace reply, or by an instance that only knows the original bet):
+    its report must not be written onto the order that shares the reference.  All orders of the snapshot image
+    containing (original, replacement) are covered by delivering the full image."""
+    fill_new, fill_old, complete_new = args
+    out = []
+    counts = {"clause:C19.b": 0, "replacement_bet_reports": 0}
+    w = livex.LiveWorld([], strategies=("alpha",))
+    w.start()
+    try:
+        ex = w.exchange
+        fw = w.framework
+        st = fw.strategies._strategies[0] if hasattr(fw.strategies, "_strategies") else list(fw.strategies)[0]
+        o = _mk(st, "-")
+        b = ex.new_bet("1.100000001", o.create_place_instruction(), "verif")
+        ex.publish("1.100000001", [b])
+        while ex.snap_queue:
+            w.do(("D",))
+        got = fw.markets.get_order("1.100000001", o.id)
+        case = dict(attr_replacement=list(args))
+        if got is None:
+            out.append(core.v("C19.b", ("roundtrip missing", "replacement"), "reference not adopted", case))
+            return dict(violations=out, counts=counts)
+        if fill_old:
+            ex.fill(b, fill_old)
+            while ex.snap_queue:
+                w.do(("D",))
+        ref_state = (str(got.bet_id), got.size_matched, got.size_remaining, got.size_cancelled, got.status.name)
+        b2 = ex.new_bet("1.100000001", o.create_place_instruction(), "verif", price=2.5)
+        if fill_new:
+            ex.fill(b2, 2.0 if not complete_new else 1000.0)
+        else:
+            ex.publish("1.100000001", [b2])
+        while ex.snap_queue:
+            w.do(("D",))
+        counts["clause:C19.b"] += 1
+        counts["replacement_bet_reports"] += 1
+        now = (str(got.bet_id), got.size_matched, got.size_remaining, got.size_cancelled, got.status.name)
+        if now != ref_state:
+            out.append(core.v("C19.b", ("roundtrip attribution", "replacement-bet"), "the report of bet %s (same reference, unknown bet id) was written onto the order of bet %s: %r -> %r" % (b2.bet_id, b.bet_id, ref_state, now), case))
+        if w.handler_exceptions:
+            out.append(core.v("C19.b", ("roundtrip exception", "replacement-bet"), w.handler_exceptions[0][-300:], case))
+    finally:
+        w.stop()
+    return dict(violations=out, counts=counts)
+
+
+_BDQ_ITEMS = ("own0", "own1", "fA", "fB")
+
+
+def _betdaq_batches():
+    for n in range(1, len(_BDQ_ITEMS) + 1):
+        for sub in itertools.permutations(_BDQ_ITEMS, n):
+            if any(x.startswith("f") for x in sub):
+                yield sub
+
+
+def _betdaq_run(items):
+    from props.betdaqlife import BetdaqWorld
+    from flumine.events import events
+    from flumine.clients import ExchangeType
+
+    w = BetdaqWorld([("P", dict(sel=1, price=2.0, size=4.0)), ("P", dict(sel=2, price=3.0, size=6.0))])
+    w.start()
+    try:
+        for ev in (("S",), ("X_send", 0), ("X_apply", 0), ("S",), ("X_send", 1), ("X_apply", 1), ("POLL",)):
+            w.do(ev)
+        own = sorted(w.api.orders.values(), key=lambda d: d["order_id"])
+        if len(own) != 2:
+            raise core.HarnessError("betdaq attribution: %d orders at the double" % len(own))
+        seq = w.api.seq
+        it = {}
+        d = dict(own[0]); d.update(matched_size=2.0, remaining_size=2.0, matched_price=d["price"], sequence_number=seq + 1); it["own0"] = d
+        d = dict(own[1]); d.update(matched_size=6.0, remaining_size=0.0, matched_price=d["price"], status="Matched", sequence_number=seq + 2); it["own1"] = d
+        it["fA"] = dict(order_id=9001, customer_reference="123456789012345678", status="Matched", price=5.0, size=50.0, matched_size=50.0, remaining_size=0.0, matched_price=5.0, polarity=1, runner_id=701, sequence_number=seq + 3)
+        it["fB"] = dict(order_id=9002, customer_reference="", status="Unmatched", price=7.0, size=9.0, matched_size=0.0, remaining_size=9.0, matched_price=0.0, polarity=2, runner_id=702, sequence_number=seq + 4)
+        w.dispatch(events.CurrentOrdersEvent([dict(it[n]) for n in items], exchange=ExchangeType.BETDAQ))
+        m = w.market()
+        live = {id(x) for x in m.blotter.live_orders}
+        rows = [(x.status.name, x.size_matched, x.size_remaining, x.complete, id(x) in live, str(x.bet_id), (x.current_order or {}).get("order_id") if isinstance(x.current_order, dict) else None) for x in m.blotter]
+        return rows, [e[-300:] for e in w.handler_exceptions]
+    finally:
+        w.stop()
+
+
+def _attr_betdaq(batches):
+    """Betdaq: every ordering of a polling batch that mixes reports of the framework's own orders with reports
+    of orders it does not know (placed by hand / by another instance on the account): the local orders must end
+    exactly as after the same batch without the foreign reports (differential oracle on the real code)."""
+    out = []
+    counts = {"clause:C19.b": 0, "betdaq_batches": 0}
+    cache = {}
+    for items in batches:
+        twin = tuple(n for n in items if n.startswith("own"))
+        if twin not in cache:
+            cache[twin] = _betdaq_run(twin)
+        got, exc = _betdaq_run(items)
+        counts["clause:C19.b"] += 1
+        counts["betdaq_batches"] += 1
+        case = dict(betdaq_batch=list(items))
+        if exc:
+            out.append(core.v("C19.b", ("roundtrip exception", "betdaq"), exc[0], case))
+        if got != cache[twin][0]:
+            out.append(core.v("C19.b", ("roundtrip attribution", "betdaq-foreign-report"), "batch %r: local orders %r, without the foreign reports %r" % (list(items), got, cache[twin][0]), case))
+    return dict(violations=_dedup(out), counts=counts)
+
+
 def _dedup(vs, per_key=1):
     seen, out = {}, []
     for d in vs:
@@ -273,6 +381,15 @@ def run(tier):
     for r in core.pmap(_roundtrip, rj, chunk=1):
         rep.add_violations(r["violations"])
         rep.merge_counts(r["counts"])
+    aj = [(fn, fo, cn) for fn in (0, 1) for fo in (0.0, 1.0) for cn in (False, True) if fn or not cn]
+    for r in core.pmap(_attr_replacement, aj, chunk=1):
+        rep.add_violations(r["violations"])
+        rep.merge_counts(r["counts"])
+    bb = list(_betdaq_batches())
+    for r in core.pmap(_attr_betdaq, [bb[i::8] for i in range(8)], chunk=1):
+        rep.add_violations(r["violations"])
+        rep.merge_counts(r["counts"])
+    rep.need("replacement_bet_reports", "betdaq_batches")
     rep.need("valid_seps_accepted", "invalid_seps_rejected", "orders_created", "roundtrip_refs", "unknown_strategy_refs")
     rep.states = len(nm) * (len(seps()) - 1) * 2 + len(rj)
     rep.transitions = sum(rep.clauses.values())
@@ -283,7 +400,7 @@ def run(tier):
     rep.sample({"name": nm[20], "sep": "~"})
     rep.sample({"roundtrip": rj[1]})
     rep.bounds = dict(names=len(nm), separators=len(seps()) - 1, id_loop=n, roundtrip_runs=len(rj))
-    rep.rule = "complete grid: %d strategy names (empty, every string of length <=2 over {a,Z,0,-,space,é,漢,NUL}, lengths 13/32/1000, unicode) x %d separators (all 128 ASCII characters, non-ASCII, lengths 0 and 2) through constructor and assignment; id loops of %d orders under the real clock, a frozen simulated clock and 4 threads; id seam with 17/18-digit boundary values; references replayed into a second real framework instance holding 1-3 of the strategies" % (len(nm), len(seps()) - 1, n)
+    rep.rule = "complete grid: %d strategy names (empty, every string of length <=2 over {a,Z,0,-,space,é,漢,NUL}, lengths 13/32/1000, unicode) x %d separators (all 128 ASCII characters, non-ASCII, lengths 0 and 2) through constructor and assignment; id loops of %d orders under the real clock, a frozen simulated clock and 4 threads; id seam with 17/18-digit boundary values; references replayed into a second real framework instance holding 1-3 of the strategies; a bet sharing a known reference under an unknown bet id; every ordering of every Betdaq polling batch over {2 own reports, 2 foreign reports} containing a foreign report, against the same batch without them" % (len(nm), len(seps()) - 1, n)
     rep.assumptions = [
         "Betfair's customer reference character set restated in the check (letters, digits, - . _ + * : ; ~)",
         "distinct uuid1() calls give distinct .time values (libuuid / the OS clock): observed over the creation loops, otherwise assumed",
@@ -294,7 +411,11 @@ def run(tier):
 
 def replay(rep):
     c = rep["case"]
-    if "own" in c:
+    if "attr_replacement" in c:
+        r = _attr_replacement(tuple(c["attr_replacement"]))
+    elif "betdaq_batch" in c:
+        r = _attr_betdaq([tuple(c["betdaq_batch"])])
+    elif "own" in c:
         r = _roundtrip((tuple(c["own"]), c["sep"], tuple(c.get("late") or ())))
     elif "mode" in c:
         r = _ids_job((c["mode"], 2000))
